@@ -8,9 +8,10 @@ Correspondence, per case (language, configuration, Rust source):
     extracted keyword predicates (good_C10_kw, good_C10_swift_labels) on the declaring positions that
     lib/extract.py finds in the real text, and the grammar validators: the extracted Gallina recognisers of the
     table GRAMMAR below - of the TypeScript declaration grammar (Spec/C10TsGrammar.v), of the Go declaration grammar
-    (Spec/C10GoGrammar.v: tokenizer with semicolon insertion + recursive descent, run on every real Go file) and of the Kotlin
-    declaration grammar (Spec/C10KtGrammar.v, on every real Kotlin file, single-file and folder mode) -, CPython ast.parse + a
-    declaration grammar over its AST + import against lib/pydantic_stub for Python, the template recognisers of lib/extract.py
+    (Spec/C10GoGrammar.v: tokenizer with semicolon insertion + recursive descent, run on every real Go file), of the Kotlin
+    declaration grammar (Spec/C10KtGrammar.v, on every real Kotlin file, single-file and folder mode) and of the Swift
+    declaration grammar (Spec/C10SwGrammar.v: tokenizer + recursive descent, run on every real Swift file) -, CPython ast.parse
+    + a declaration grammar over its AST + import against lib/pydantic_stub for Python, the template recognisers of lib/extract.py
     (nothing unparsed, no anomaly) for all six, plus `= _` in a Scala parameter list;
   * dom_C10 / known_C10 (extracted) on the IR the REAL parser produced classify the case.
 Also lexed: every snapshot expectation file of /repo/core/data/tests."""
@@ -33,6 +34,7 @@ GRAMMAR = {
     'typescript': ('c10_ts_parse', 'ts-grammar', 'Spec/C10TsGrammar.v'),
     'go': ('c10_go_parse', 'go-grammar', 'Spec/C10GoGrammar.v'),
     'kotlin': ('c10_kt_parse', 'kt-grammar', 'Spec/C10KtGrammar.v'),
+    'swift': ('c10_sw_parse', 'sw-grammar', 'Spec/C10SwGrammar.v'),
 }
 # recognisers that only know single-file output: the TypeScript grammar of Spec/C10TsGrammar.v has no import statement (the
 # import blocks of folder-mode files are judged by import_block_grammar below); the others parse their folder-mode files too
@@ -70,11 +72,11 @@ def grammar_judge(chk, lang, verdict, fails, why, where='', counter=''):
 #  suppressed; its witness stays in WITNESSES below and must pass, dotless packages stay in configs(): a regression is a violation)
 PREDICTS = {
     'C10-scala-default': {'scala-default'},
-    'C10-swift-label': {'swift-label'},
+    'C10-swift-label': {'swift-label', 'sw-grammar'},
     'C10-python-generic-alias': {'py-grammar', 'py-import-at-generic-alias'},
     'C10-python-empty-union': {'py-syntax'},
     'C10-python-digit-name': {'py-syntax', 'identifier', 'template'},
-    'C10-digit-name': {'identifier', 'template', 'ts-grammar', 'go-grammar', 'kt-grammar'},
+    'C10-digit-name': {'identifier', 'template', 'ts-grammar', 'go-grammar', 'kt-grammar', 'sw-grammar'},
     'C10-python-generic-enum-arg': {'py-import-not-subscriptable'},
     'C10-go-keyword-name': {'go-grammar'},
 }
@@ -732,6 +734,7 @@ def run(chk):
     chk.assumptions = [
         'the six lexers of Spec/C10Spec.v are the definition of "delimiters, string literals and comments are closed" (no compiler of the five non-Python languages is installed)',
         'the Go declaration grammar is the recogniser of Spec/C10GoGrammar.v (written from the language specification; function bodies are only checked to be balanced token runs)',
+        'the Swift declaration grammar is the recogniser of Spec/C10SwGrammar.v (written from the Summary of the Grammar of The Swift Programming Language; the bodies of init / func are only checked to be balanced token runs; line breaks are admitted between declarations / members, after `{`, before `}` and after a comma of a case / parameter list only)',
         'grammar conformance of ' + ', '.join(LANG_NAME[l] for l in GRAMMAR) + ' files is judged by the extracted Gallina recognisers of their declaration grammars (' + ', '.join(g[2] for g in GRAMMAR.values()) + '; proved in Props/C10.v to accept what the models print, on the domain of each theorem); for the others it is validated, not proved: CPython ast.parse + import against lib/pydantic_stub for Python; template recognisers of lib/extract.py for the others',
         'doc text is restricted to the safe predicate c10_doc_ok (doc-induced breakage is C15)',
         'a Python NameError at import is name resolution (C09 / C11 / C12) and a duplicate Enum member name is a naming collision (C02): both counted, not judged here; any other import failure is judged',
